@@ -120,6 +120,9 @@ def run(F, tier, res):
                             'for this file pair already: a renamed-with-changes file gets two headers', where=F.span_of_call(c))
             # (b) followed by handled := current
             marks = [bb for (bb, chain, kind, payload) in Ru.field_writes(F, p, None, HANDLED) if kind.startswith('mutcall:clone_from') or kind == 'assign']
+            # ... or through a setter method that records the pair on every one of its paths
+            from .c10 import _must_assign
+            marks += [j for j, cj in F.calls(p) if _must_assign(F, callee_of(cj) if callee_of(cj) in F.fn_bodies else (cj.get('resolved') or ''), HANDLED, 0)]
             errexits = [bb for bb, cc in F.calls(p) if 'from_residual' in callee_of(cc)]
             miss = Ru.must_pass(F, p, c['target'], set(marks) | set(errexits))
             if miss:
